@@ -329,7 +329,7 @@ def e_line(case, trim, comp, datasets):
 
 
 def gen_cases(rng, ctx, tier, open_keys):
-    n = 260 if tier == "quick" else 2600
+    n = 260 if tier == "quick" else 5000
     avoid_rbrace = "string_rbrace_after_meta" in open_keys
     cases = []      # dict(line, feats, case)
     plain, _ = codecrun.gen_cases(ctx, rng, n, comp_mode=False)
@@ -775,7 +775,7 @@ def run(rep, tier, seed, replay=None):
             cases.append(dict(line=cl, feats={"corpus"}, tables="TABLES %s %s" % (lb, ld)))
         contract = contract_cases(rng, tier)
         binary = binary_cases(rng)
-        every = 3
+        every = 3 if tier == "quick" else 2
     plines, preq = [], []
     for n, s in contract:
         x = float(Fraction(n) / Fraction(10) ** s)
